@@ -26,6 +26,12 @@ steps of `register_scope_providers` (RREL strings, RREL provider *objects* built
 several keys) and model loads.  Observation per reference: pool and path of the target (= which provider,
 how the name was split).  Compared with (a) the documented precedence + delimiter rule (oracle), (b) the
 Lean model's call list, (c) the same history with the selected expressions written in the grammar.
+
+`env` of a select / multi case (tie X, op `resolve`): the configuration of the meta-model around the provider call —
+`builtins=` (names the model defines as well, names it does not, conforming / non-conforming classes),
+`textx_tools_support`, user classes, `auto_init_attributes`, custom providers that answer `Postponed()` first, names no
+provider finds.  The selected provider must be asked (first, and only it, in every pass), its answer binds the reference,
+builtins are the fall-back, without one the load fails with "Unknown object" at that reference.
 """
 import ast
 import os
@@ -969,7 +975,13 @@ class Prop(Check):
             "histories of one meta-model: 1..3 steps of (re-)registration and model load, 1..3 rules with t / ts(list) / u, "
             "every assignment with its own match rule (no split parameter, '.', '/', '::', '/'-separated without "
             "parameter), names of 2..3 parts, values = RREL strings, RREL provider objects with / without split_string, "
-            "callables, one object bound to several keys.  non-trivial = some "
+            "callables, one object bound to several keys.  env (configuration of the meta-model around the provider "
+            "call): complete enumeration of the 2^4 subsets x grammar RREL y/n x single / list attribute in a meta-model "
+            "with builtins {x: defined in the model too, w: builtin only, y: non-conforming class} while "
+            "textx_tools_support, user classes, auto_init_attributes and a postponing provider rotate (64 cases); half of "
+            "the random select cases and 45 % of the random multi cases get a random env (builtins over the names the "
+            "references write, conforming / other rule's class / foreign object; tools; user classes for target / "
+            "referring rules; custom providers answering Postponed() first; 20 % names no pool holds).  non-trivial = some "
             "reference has at least two of the four keys registered or a grammar RREL together with a registered key "
             "(select), or both configurations resolve at least one reference (rrelsame), or one registered expression is asked "
             "with two delimiters or in two models (multi)")
@@ -979,7 +991,9 @@ class Prop(Check):
                 "assignment: the per-attribute and per-assignment slots visit_assignment fills and the getattr read of "
                 "process_node (Select.visit / refRrel, proved equal to Select.occRrel), the delimiter deduction of RREL.__call__ and the name split of "
                 "find_object_with_path per call (Select.RrelObj.call / callOf), register_scope_providers replacing the "
-                "dictionary in a history of loads (Select.run); not exhibited: what the selected provider then computes (RREL evaluation is "
+                "dictionary in a history of loads (Select.run), the body of the resolve loop around the provider call: "
+                "nothing precedes the call, builtins fall-back block for None, Unknown-object error, Postponed -> next pass "
+                "(Select.resolveRef / resolvePasses); not exhibited: what the selected provider then computes (RREL evaluation is "
                 "C11/C12), ModelLoader side effects of registered +m providers on files without references")
     ASSUMPTIONS = [
         "the RREL parser used for registered strings (rrel.parse) and the RREL sub-grammar used inside textX grammars "
@@ -1643,8 +1657,22 @@ class Prop(Check):
                         shared["references"] += 1
                         if call[0] == "find":
                             shared["delimiters"][call[2]] = shared["delimiters"].get(call[2], 0) + 1
+        envs = {"cases": 0, "builtins": 0, "tools": 0, "classes": 0, "postpone": 0, "refs_to_builtin_names": 0,
+                "refs_unknown": 0}
+        for c in cases:
+            if c.get("env"):
+                e = env_of(c)
+                envs["cases"] += 1
+                for key in ("builtins", "tools", "postpone"):
+                    envs[key] += 1 if e[key] else 0
+                envs["classes"] += e["classes"] != "none"
+                if c["kind"] == "select":
+                    keys = {k for k, _ in e["builtins"]}
+                    for nm in select_names(c):
+                        envs["refs_to_builtin_names"] += nm in keys
+                        envs["refs_unknown"] += nm in GHOSTS and not conforming(c, nm)
         loads = sum(o.get("loads", 2) for o in obs if isinstance(o, dict))
         return {"distribution": {"kinds": kinds, "references": refs, "expected_provider_kinds": sel, "model_loads": loads,
-                                 "multi": shared},
+                                 "multi": shared, "env": envs},
                 "exhaustive": "2^4 key subsets x grammar RREL y/n x single/list x objects/strings for one reference (128 cases)",
                 "translation_units": {"Gen.providerOrder": read_provider_order()}}
